@@ -15,6 +15,18 @@
 //!   (iv)  malformed streams on the collected ChannelMonitorUpdates, Events, ChannelDetails and on directly
 //!         constructed small TLV objects: every strict truncation ⇒ Err, appended unknown odd record ⇒ equal
 //!         object, appended unknown even record ⇒ Err, single-byte corruptions never panic.
+//!   (v)   DEEP manager equivalence: after every op the manager of a node (all nodes in the thorough tier) is written and
+//!         read into a fresh ChannelManager (never installed); the hook `manager_persisted_state_dump` (claimable payments
+//!         per HTLC: value, sender_intended_value, total, cltv_expiry, timer_ticks, skimmed fee, previous hop; pending
+//!         claims; forwards; intercepted HTLCs; HTLCs awaiting decoding; outbound payment states; pending / background
+//!         events; blocked completion actions; in-flight update ids) of the original and of the copy must agree (see
+//!         `deep_diff` for what a reload may legitimately change); the same at every real reload;
+//!   (vi)  rare manager states + behavioural oracle: scripted scenarios (underpaid / over-forwarded HTLCs through an
+//!         intercepting node, partially received multi-part payments, intercepted HTLCs awaiting a decision, holding cell,
+//!         asynchronous persistence with blocked completion actions and pending claims), the manager written and the node
+//!         restarted from the bytes at every cut point, each run compared with the run of the same script in which the
+//!         node is only disconnected and reconnected: same payment events at every node, same observable end state;
+//!         the per-channel ChannelConfig must survive every reload.
 //!
 //! Op lines for the Lean driver (the model knows ONLY the (type, kind) list of the block, regenerated from the
 //! Rust source by tools/gen_tlv_schemas.py; payloads are opaque):
@@ -343,7 +355,8 @@ fn check_node(net: &Net, i: usize, st: &mut St, ctx: &mut Ctx, op: &str) {
 				if re == bytes { st.n_mon_identical += 1; }
 				if !mon.verif_eq_modulo_unserialized(&m2) {
 					let m3 = read_mon(&re, keys).ok();
-					ctx.fail(format!("after {}: monitor of node {} != its round trip: fields {:?} {:?} differ (re-encoding {}; second round trip {} the first)", op, i, mon.verif_unequal_fields(&m2), mon.verif_unequal_onchain_fields(&m2), if re == bytes { "byte-identical" } else { "a permutation" },
+					let flds = format!("{:?} {:?}", mon.verif_unequal_fields(&m2), mon.verif_unequal_onchain_fields(&m2));
+					ctx.fail_once(&format!("mon-ne:{}", class_key(&flds)), format!("after {}: monitor of node {} != its round trip: fields {} differ (re-encoding {}; second round trip {} the first)", op, i, flds, if re == bytes { "byte-identical" } else { "a permutation" },
 						match m3 { Some(m3) => if m2.verif_eq_modulo_unserialized(&m3) { "==" } else { "!=" }, None => "unreadable unlike" }));
 					if std::env::var("C12_DUMP").is_ok() { eprintln!("C12_DUMP monitor {}", hex(&bytes)); }
 				}
@@ -397,7 +410,7 @@ fn check_node(net: &Net, i: usize, st: &mut St, ctx: &mut Ctx, op: &str) {
 	for ev in &net.events[i][seen.min(net.events[i].len())..] {
 		let e = ev.encode();
 		match guarded(AssertUnwindSafe(|| { let mut s = &e[..]; <Event as MaybeReadable>::read(&mut s).map(|x| (x, s.len())) })) {
-			Ok(Ok((Some(ev2), left))) => { st.n_ev += 1; if ev2 != *ev || ev2.encode() != e || left != 0 { ctx.fail(format!("after {}: Event of node {} does not round trip (unread {}): {:?}", op, i, left, ev)); } },
+			Ok(Ok((Some(ev2), left))) => { st.n_ev += 1; if ev2 != *ev || ev2.encode() != e || left != 0 { let k = format!("{:?}", ev); ctx.fail_once(&format!("event-rt:{}", event_kind(&k)), format!("after {}: Event of node {} does not round trip (unread {}): written {:?} read back {:?}", op, i, left, ev, ev2)); } },
 			Ok(Ok((None, _))) => { ctx.bump(&format!("event-not-persisted:id{}", e[0])); },
 			other => ctx.fail(format!("after {}: Event of node {} does not read back: {:?} {:?}", op, i, other.map(|r| r.map(|_| ())), ev)),
 		}
@@ -493,13 +506,26 @@ fn check_graph_scorer(net: &Net, i: usize, st: &mut St, ctx: &mut Ctx, op: &str)
 //   * `timer_ticks` of a claimable HTLC is in-memory only (the reader sets 0): masked;
 //   * pending events: every event pending before is still pending, in the same relative order; a reload may ADD events
 //     (replays of HTLCIntercepted / PaymentClaimed / PaymentSent …): counted per kind, not a difference;
-//   * background events are generated by the read itself (never written); in-flight monitor update ids and the
-//     completion actions blocked on them are resolved by the read when the monitors handed to it are up to date (the
-//     harness always hands over the latest monitors): they may only DISAPPEAR, and a pending claim may only disappear
-//     together with its blocked action; nothing of these kinds may appear.
+//   * background events are generated by the read itself (never written); in-flight monitor update ids, the completion
+//     actions blocked on them and the pending claims are claim-REPLAY state: resolved by the read when the monitors handed
+//     to it are up to date (the harness always hands over the latest monitors) and re-created by it for every claim a
+//     monitor still records as in progress: counted per kind, not compared (their effects are events, compared in (vi)).
 // Everything else (claimable payments and their HTLCs, forwards, intercepts, decode queue, outbound payments) must be
 // line-for-line equal.
 // ---------------------------------------------------------------------------------------------------
+/// class of a failure text: long hex runs and numbers removed, truncated — the list of failing inputs is capped, one
+/// representative per class is reported and the repetitions are counted
+fn class_key(s: &str) -> String {
+	let mut out = String::new();
+	let mut run = String::new();
+	for c in s.chars().chain(std::iter::once(' ')) {
+		if c.is_ascii_hexdigit() { run.push(c); continue; }
+		if !(run.len() >= 8 || run.chars().all(|x| x.is_ascii_digit())) { out.push_str(&run); } else { out.push('#'); }
+		run.clear();
+		out.push(c);
+	}
+	out.chars().take(110).collect()
+}
 fn mask_token(s: &str, key: &str) -> String {
 	let mut out = String::new();
 	let mut rest = s;
@@ -525,8 +551,29 @@ fn deep_diff(before: &[String], after: &[String], added: &mut Vec<String>) -> Ve
 	let mut diffs = vec![];
 	let strict = ["claimable", "forward", "intercepted", "decode_update_add", "outbound"];
 	let pick = |v: &[String], k: &str| -> Vec<String> { let mut x: Vec<String> = v.iter().filter(|l| line_kind(l) == k).map(|l| mask_ticks(l)).collect(); x.sort(); x };
+	let ev_after: Vec<String> = after.iter().filter(|l| line_kind(l) == "event").map(|l| event_body(l)).collect();
+	let ev_before: Vec<String> = before.iter().filter(|l| line_kind(l) == "event").map(|l| event_body(l)).collect();
 	for k in strict {
-		let (a, b) = (pick(before, k), pick(after, k));
+		let (mut a, mut b) = (pick(before, k), pick(after, k));
+		if k == "outbound" {
+			// startup replay of HTLC resolutions recorded by the monitors (of closed channels): the parts of an outbound
+			// payment that a monitor shows as claimed / failed are finalized by the read — the session_priv list shrinks
+			// (pending amounts with it) and the corresponding Payment* event is ADDED by the reload.  Accepted only in
+			// that combination: same payment, same variant, privs a strict subset, an added event naming the payment.
+			let privs = |l: &str| -> Vec<String> { l.split(" privs=[").nth(1).and_then(|t| t.split(']').next()).map(|t| t.split(',').filter(|x| !x.is_empty()).map(|x| x.to_string()).collect()).unwrap_or_default() };
+			let norm = |l: &str| -> String { mask_token(&mask_token(&mask_token(l, " privs="), " pending_amt="), " pending_fee=") };
+			for i in 0..a.len() {
+				let id = a[i].split(' ').nth(1).unwrap_or("").to_string();
+				if let Some(j) = b.iter().position(|m| m.split(' ').nth(1) == Some(&id[..])) {
+					if a[i] != b[j] && norm(&a[i]) == norm(&b[j]) {
+						let (pa, pb) = (privs(&a[i]), privs(&b[j]));
+						let replayed = ev_after.iter().any(|e| e.contains(&id) && !ev_before.contains(e));
+						if pb.len() < pa.len() && pb.iter().all(|x| pa.contains(x)) && replayed { added.push("outbound-parts-finalized-by-startup-replay".into()); b[j] = a[i].clone(); }
+					}
+				}
+			}
+			a.sort(); b.sort();
+		}
 		if a != b {
 			let key = |l: &str| -> String { l.split(' ').take(2).collect::<Vec<_>>().join(" ") };
 			let only_a: Vec<&String> = a.iter().filter(|l| !b.contains(l)).collect();
@@ -555,13 +602,12 @@ fn deep_diff(before: &[String], after: &[String], added: &mut Vec<String>) -> Ve
 		}
 	}
 	for x in &ea[j.min(ea.len())..] { added.push(format!("event-added-by-reload:{}", event_kind(x))); }
-	// may only disappear
+	// claim replay state: resolved by the read when the monitors are up to date, (re)created by the read for every claim
+	// a monitor still records as in progress (`payment_claims` next to a stored preimage): counted, not compared — the
+	// behavioural comparison covers what they lead to
 	for k in ["in_flight", "blocked_action", "claiming"] {
 		let (a, b) = (pick(before, k), pick(after, k));
-		for l in b.iter().filter(|l| !a.contains(l)) {
-			// in-flight ids may shrink (a prefix completed): compare per channel only for in_flight
-			if k == "in_flight" { added.push("in-flight-list-changed-by-reload".into()); } else { diffs.push(format!("only after the reload: {}", l)); }
-		}
+		for _ in b.iter().filter(|l| !a.contains(l)) { added.push(format!("{}-added-or-changed-by-reload", k)); }
 		for _ in a.iter().filter(|l| !b.contains(l)) { added.push(format!("{}-resolved-by-reload", k)); }
 	}
 	for l in after.iter().filter(|l| line_kind(l) == "background") { added.push(format!("background-event-after-reload:{}", l.split(' ').nth(1).unwrap_or(""))); }
@@ -601,7 +647,7 @@ fn shadow_check(net: &Net, i: usize, st: &mut St, ctx: &mut Ctx, op: &str) {
 			let mut added = vec![];
 			let d = deep_diff(&before, &after, &mut added);
 			for a in added { ctx.bump(&format!("deep:{}", a)); }
-			if !d.is_empty() { ctx.fail(format!("after {}: ChannelManager of node {} written and read back differs in its persisted payment state: {}", op, i, d.iter().take(3).map(|s| s.chars().take(420).collect::<String>()).collect::<Vec<_>>().join(" || "))); }
+			if !d.is_empty() { ctx.fail_once(&format!("shadow:{}", class_key(&d[0])), format!("after {}: ChannelManager of node {} written and read back differs in its persisted payment state: {}", op, i, d.iter().take(3).map(|s| s.chars().take(420).collect::<String>()).collect::<Vec<_>>().join(" || "))); }
 		},
 	}
 }
@@ -683,7 +729,8 @@ fn reload_check(net: &mut Net, i: usize, st: &mut St, ctx: &mut Ctx) {
 			let mut added = vec![];
 			let dd = deep_diff(&deep_before, &deep_after, &mut added);
 			for a in added { ctx.bump(&format!("deep:{}", a)); }
-			if !dd.is_empty() { ctx.fail(format!("ChannelManager of node {}: persisted payment state differs after write+reload: {}", i, dd.iter().take(3).map(|s| s.chars().take(420).collect::<String>()).collect::<Vec<_>>().join(" || "))); }
+			if !dd.is_empty() && std::env::var("C12_DEBUG").is_ok() { eprintln!("== reload_check node {}\nBEFORE\n{}\nAFTER\n{}\nTRACE\n{}", i, deep_before.join("\n"), deep_after.join("\n"), net.trace.iter().rev().take(60).rev().map(|o| fmt_obs(o)).collect::<Vec<_>>().join("\n")); }
+			if !dd.is_empty() { ctx.fail_once(&format!("reload-deep:{}", class_key(&dd[0])), format!("ChannelManager of node {}: persisted payment state differs after write+reload: {}", i, dd.iter().take(3).map(|s| s.chars().take(420).collect::<String>()).collect::<Vec<_>>().join(" || "))); }
 			let n_before = net.events[i].len();
 			net.process_events(i);
 			for e in &net.events[i][n_before..] { let k = format!("{:?}", e); ctx.bump(&format!("event-after-reload:{}", k.split(|c: char| !c.is_alphanumeric()).next().unwrap_or(""))); }
@@ -1137,7 +1184,7 @@ fn main() {
 		let fails_before = ctx.rec.oracle_failures.len();
 		match guarded(AssertUnwindSafe(|| scenario(&mut sub, &mut st, &mut ctx, steps, with_close))) {
 			Ok(net) => { keys = Some(net.nodes[0].keys_manager); std::mem::forget(net); },
-			Err(p) => ctx.fail(format!("scenario {} (seed {}, close={}) panicked: {}", sc, args.seed, with_close, p.chars().take(300).collect::<String>())),
+			Err(p) => ctx.fail_once(&format!("scenario-panic:{}", class_key(&p.chars().take(60).collect::<String>())), format!("scenario {} (seed {}, close={}) panicked: {}", sc, args.seed, with_close, p.chars().take(300).collect::<String>())),
 		}
 		// name the scenario of new failures
 		for k in fails_before..ctx.rec.oracle_failures.len() { let f = &mut ctx.rec.oracle_failures[k]; if !f.is_empty() && !f.starts_with("scenario ") { *f = format!("scenario {}: {}", sc, f); } }
@@ -1256,10 +1303,11 @@ fn main() {
 	let stats: Vec<String> = ctx.stats.iter().map(|(k, v)| format!("{}={}", k, v)).collect();
 	let mut rec = ctx.rec;
 	for (k, v) in ctx.stats.iter() { if k.starts_with("op:") || k.starts_with("obj:") { *rec.classes.entry(k.clone()).or_insert(0) += *v; } }
-	rec.notes.insert("rule".into(), "3 real nodes / 2 channels, random schedules (1- and 2-hop sends, per-message delivery, forwards, claims/fail-backs, InProgress persistence with out-of-order completion, disconnect/reconnect, timer ticks, ChannelManager write+reload at sampled points, every second scenario ends with a unilateral close followed by 14-30 blocks); after EVERY op every monitor / new monitor update / ChannelDetails / new Event of every node is written, read back, compared (== and bytes) and new updates are applied to the re-read previous monitor and compared with the live one; op lines = TLV-level mutations (frame / lpframe / ver / variant) of the collected objects; distinct = distinct op-line texts".into());
+	rec.notes.insert("rule".into(), "3 real nodes / 2 channels, random schedules (1- and 2-hop sends, per-message delivery, forwards, claims/fail-backs, InProgress persistence with out-of-order completion, disconnect/reconnect, timer ticks, ChannelManager write+reload at sampled points, every second scenario ends with a unilateral close followed by 14-30 blocks); after EVERY op every monitor / new monitor update / ChannelDetails / new Event of every node is written, read back, compared (== and bytes) and new updates are applied to the re-read previous monitor and compared with the live one; op lines = TLV-level mutations (frame / lpframe / ver / variant) of the collected objects; distinct = distinct op-line texts; plus (v) a shadow write->read of the manager with a deep persisted-state dump comparison after every op and (vi) scripted rare-state scenarios reloaded at every cut point with a behavioural comparison against the un-reloaded run".into());
 	rec.notes.insert("roundtrips".into(), format!("monitors={} (byte-identical re-encoding: {}) monitor_updates={} update_applied_after_roundtrip={} (skipped: {}) channel_details={} events={} manager_reloads={} manager_shadow_reloads_with_deep_dump={} rare_state_runs={} rare_state_cut_points={} network_graphs={} scorers={}", st.n_mon_rt, st.n_mon_identical, st.n_upd_rt, st.n_apply, st.n_apply_skipped, st.n_det, st.n_ev, st.n_mgr, st.n_shadow, st.n_rare_runs, st.n_rare_cuts, st.n_graph, st.n_scorer));
 	rec.notes.insert("states_reached".into(), st.mon_states.iter().cloned().collect::<Vec<_>>().join(","));
 	rec.notes.insert("stats".into(), stats.join(" "));
-	rec.notes.insert("not_covered".into(), "OutputSweeper (needs an async KVStore + wallet set-up; its TLV blocks are in the generated schema list only); ChannelManager malformed-stream mutations (each needs a full node reload); lockstep behavioural comparison of a reloaded manager against the original beyond the observable dump (the scenario continues on the reloaded node under the engine's own oracles)".into());
+	rec.notes.insert("not_covered".into(), "OutputSweeper (needs an async KVStore + wallet set-up; its TLV blocks are in the generated schema list only); ChannelManager malformed-stream mutations (each needs a full node reload); the behavioural comparison original vs reloaded manager covers the scripted rare-state scenarios (payment events and end state), not the random schedules (there the reloaded node continues under the engine's own oracles); reloads always hand over the LATEST monitors (stale-monitor restarts are C10's subject), so in-flight updates / blocked completion actions / pending claims are written but resolved by the read; retry_strategy / attempts of a Retryable payment and timer_ticks of a claimable HTLC are declared non-persistent and masked".into());
+	rec.notes.insert("rare_states".into(), "scripts: {underpaid, overforwarded} x {claim, fail, blocks}, mpp2-underpaid-claim, mpp2-partial-timeout, mpp2-one-part-failed, holding-cell, async-persist-claim, async-persist-mpp2-underpaid; cut points = every effective act / micro-step (quick: all within two steps of a non-micro act + every third other one, the node(s) the neighbouring acts concern; thorough: all, every node); states written are listed in states_reached as rare:written:*".into());
 	rec.finish();
 }
